@@ -361,7 +361,10 @@ def rule_idxbound(P, N=3, hiddens=(0, 1), positions=None, flow=True) -> RuleResu
             other = 2 if N >= 2 else 1
             attrs[(PB, 'columns')] = SList([pos, other])
             got = set()
-            for p in run(fi, {'self': SELF, fi.params[1]: PB, fi.params[2]: SList(tg), fi.params[3]: SList(list(range(N + hidden)))}, attrs):
+            env = {'self': SELF, fi.params[1]: PB, fi.params[2]: SList(tg)}
+            if len(fi.params) > 3:
+                env[fi.params[3]] = SList(list(range(N + hidden)))      # every target is a grouping column
+            for p in run(fi, env, attrs):
                 if p.outcome == 'raise':
                     got.add('rejected' if p.value[0] == 'CompilationError' else f'raises {p.value[0]}')
                 elif p.outcome == 'return' and isinstance(p.value, SList) and len(p.value.items) == 2:
@@ -764,12 +767,13 @@ def rule_fromclause(P) -> RuleResult:
     for expr in ('absent', 'plain', 'aggregate'):
         for op in (None, OPEN):
             for cl in (None, True, CLOSE):
+              for clr in (CLEAR, None):
                 for inverted in ((False, True) if (op is not None and cl is CLOSE) else (False,)):
                     n += 1
 
                     def on_attr(base, attr, ex):
                         if base == NODE:
-                            return {'expression': None if expr == 'absent' else EXPR_AST, 'open': op, 'close': cl, 'clear': CLEAR}.get(attr, NotImplemented)
+                            return {'expression': None if expr == 'absent' else EXPR_AST, 'open': op, 'close': cl, 'clear': clr}.get(attr, NotImplemented)
                         return NotImplemented
 
                     def on_isinstance(v, c, ex):
@@ -797,7 +801,7 @@ def rule_fromclause(P) -> RuleResult:
                             return {'<': gt, '<=': gt, '>': not gt, '>=': not gt}[o]
                         return None
                     label = f'FROM {"<" + expr + " expression>" if expr != "absent" else ""} OPEN {"ON d" if op else "absent"}, CLOSE ' \
-                            f'{"ON e" if cl is CLOSE else "(no date)" if cl else "absent"}' + (', e before d' if inverted else '')
+                            f'{"ON e" if cl is CLOSE else "(no date)" if cl else "absent"}, CLEAR {"present" if clr is not None else "absent"}' + (', e before d' if inverted else '')
                     for p in Engine(P, on_attr=on_attr, on_isinstance=on_isinstance, on_call=on_call, oracle=oracle).paths(fi, {'self': SELF, fi.params[1]: NODE}):
                         must_fail = expr == 'aggregate' or inverted
                         rejected = p.outcome == 'raise' and p.value[0] == 'CompilationError'
@@ -813,13 +817,14 @@ def rule_fromclause(P) -> RuleResult:
                         if rejected:
                             continue
                         # accepted: the table is the current table updated with exactly these clauses; the condition is returned
-                        upd = T('call', (f'{show(_attr(SELF, "table"))}.update', (), (('open', op), ('close', cl), ('clear', CLEAR))))
+                        upd = T('call', (f'{show(_attr(SELF, "table"))}.update', (), (('open', op), ('close', cl), ('clear', clr))))
                         got = p.heap.get(_attr(SELF, 'table'))
                         ok_upd = isinstance(got, T) and got.op == 'call' and got.args[0] == upd.args[0] and not got.args[1] \
                             and dict(got.args[2]) == dict(upd.args[2])
                         if not ok_upd:
                             res.fail(construct, 'fromclause:update', f'{label}: the table must be replaced by table.update(open=, close=, clear=) '
-                                     f'with the values of the clause; got `{show(got)[:120]}`', loc(fi))
+                                     f'with the values of the clause, absent clauses included (a nested SELECT is compiled on the table of the '
+                                     f'enclosing one and must not inherit its clauses); got `{show(got)[:120]}`', loc(fi))
                         want_ret = None if expr == 'absent' else CEXPR
                         if p.value != want_ret:
                             res.fail(construct, 'fromclause:condition', f'{label}: the compiled FROM condition must be returned; got `{show(p.value)}`', loc(fi))
@@ -1012,7 +1017,7 @@ def format_parser_cases(P, res):
     VALUE = Sym('VALUE')
     ok = True
     n = 0
-    for p in Engine(P).paths(pf, {'self': Sym('SETTINGS'), pf.params[1]: VALUE}):
+    for p in Engine(P).paths(pf, {'self': Sym('SETTINGS'), pf.params[-1]: VALUE}):
         n += 1
         if p.outcome == 'raise':
             if p.value[0] != 'ValueError':
